@@ -335,9 +335,15 @@ fn run_uctx<'a, S: UnwindContextStorage<usize>>(case: &'a Case, ctx: &mut Ctx<'_
     ctx.end();
 }
 
-fn walk<R: Reader<Offset = usize>>(ctx: &mut Ctx<'_>, node: EntriesTreeNode<'_, '_, R>, depth: usize, budget: &mut i64) {
+/// `skip` != 0: the children of some nodes (chosen by entry offset) are not visited, so the
+/// next sibling is reached through the tree's own skipping (DW_AT_sibling fast path or scan).
+fn walk<R: Reader<Offset = usize>>(ctx: &mut Ctx<'_>, node: EntriesTreeNode<'_, '_, R>, depth: usize, budget: &mut i64, skip: u64) {
     log_entry(ctx, "tree", node.entry(), true);
     if depth > 100 {
+        return;
+    }
+    if skip != 0 && depth > 0 && crate::rng::mix(skip, node.entry().offset().0 as u64, 7) & 1 == 1 {
+        ev!(ctx, "skip children");
         return;
     }
     let mut children = node.children();
@@ -353,7 +359,7 @@ fn walk<R: Reader<Offset = usize>>(ctx: &mut Ctx<'_>, node: EntriesTreeNode<'_, 
             return;
         }
         match children.next() {
-            Ok(Some(c)) => walk(ctx, c, depth + 1, budget),
+            Ok(Some(c)) => walk(ctx, c, depth + 1, budget, skip),
             Ok(None) => return,
             Err(e) => ctx.err(&e),
         }
@@ -541,13 +547,14 @@ fn run_info<'a>(case: &'a Case, ctx: &mut Ctx<'_>, mk: &dyn Fn(&'a [u8]) -> FR<'
             for (si, step) in case.steps.iter().enumerate() {
                 let plan = plan_of(step);
                 let budget0 = if step[0] % 2 == 0 { 1 + step[1] % 12 } else { 10_000 };
+                let skip = if step[1] % 3 == 0 { 0 } else { 0x5eed ^ (step[1] as u64) };
                 ctx.sim.arm(plan);
                 ctx.capture_begin();
                 ctx.enter("reuse.tree.root");
                 match long.root() {
                     Ok(root) => {
                         let mut b = budget0;
-                        walk(ctx, root, 0, &mut b);
+                        walk(ctx, root, 0, &mut b, skip);
                     }
                     Err(e) => ctx.err(&e),
                 }
@@ -563,7 +570,7 @@ fn run_info<'a>(case: &'a Case, ctx: &mut Ctx<'_>, mk: &dyn Fn(&'a [u8]) -> FR<'
                 match fresh.root() {
                     Ok(root) => {
                         let mut b = budget0;
-                        walk(ctx, root, 0, &mut b);
+                        walk(ctx, root, 0, &mut b, skip);
                     }
                     Err(e) => ctx.err(&e),
                 }
@@ -869,13 +876,13 @@ fn run_clones<'a>(case: &'a Case, ctx: &mut Ctx<'_>, mk: &dyn Fn(&'a [u8]) -> FR
                             ctx.capture_begin();
                             if let Ok(r) = t1.root() {
                                 let mut b = 200;
-                                walk(ctx, r, 0, &mut b);
+                                walk(ctx, r, 0, &mut b, p as u64);
                             }
                             let a = ctx.capture_end();
                             ctx.capture_begin();
                             if let Ok(r) = t2.root() {
                                 let mut b = 200;
-                                walk(ctx, r, 0, &mut b);
+                                walk(ctx, r, 0, &mut b, p as u64);
                             }
                             let b2 = ctx.capture_end();
                             if a != b2 {
